@@ -20,7 +20,7 @@ def piOf (f : MField) (names : List (Slot × String)) : Key → Key := cmAxisNam
 def kappaOf (names : List (Slot × String)) : Key → Key := fun k => nameOf names (.con k)
 
 section
-variable {o : Opts} {f : MField} {names : List (Slot × String)} (hwf : WFField f) (hg : GoodNames f (wfAx f) names)
+variable {o : Opts} {f : MField} {names : List (Slot × String)} (hwf : WFFieldB f) (hg : GoodNames f (wfAx f) names)
 include hwf
 
 omit hwf in
@@ -188,6 +188,7 @@ theorem cdimsOf_wf {e : Entry} (he : e ∈ f.cons) :
       exact dimsOf_data hwf hall
     | msr => simp only; exact dimsOf_data hwf hall
     | fan => simp only; exact dimsOf_data hwf hall
+    | dan => simp only; exact dimsOf_data hwf hall
 
 end
 
@@ -213,19 +214,57 @@ theorem arr_eta (d : Option ArrRef) : (d.map (·.id)).map (fun id => (⟨id, (d.
   | some x => cases x; rfl
 
 section
-variable {o : Opts} {f : MField} {names : List (Slot × String)} (hwf : WFField f) (hg : GoodNames f (wfAx f) names)
+variable {o : Opts} {f : MField} {names : List (Slot × String)} (hwf : WFFieldB f) (hg : GoodNames f (wfAx f) names)
 include hwf hg
+
+/-- What the reader makes of the bounds `b` of `e`. -/
+def rdBounds (o : Opts) (f : MField) (names : List (Slot × String)) (e : Entry) (b : MBounds) : MBounds :=
+  { props := b.props
+    ncvar := some (nameOf names (.bvar e.key))
+    ncdim := if (cdimsOf names (wfAx f) e).contains (nameOf names (.bdim e.key)) then none
+             else some (nameOf names (.bdim e.key))
+    data := b.data
+    nverts := (((wfFile o f names).dim? (nameOf names (.bdim e.key))).map (·.size)).getD 0 }
+
+/-- `_check_bounds` accepts the bounds variable of a construct of the written file, whatever variable
+`v` on the construct's dimensions stands for the construct. -/
+theorem readBoundsVar_exact {e : Entry} (he : e ∈ f.cons) {b : MBounds} (hb : e.con.bounds = some b)
+    (v : NcVar) (hv : v.dims = cdimsOf names (wfAx f) e) :
+    readBoundsVar (wfFile o f names) v (boundsVar names e (cdimsOf names (wfAx f) e) b) = some (rdBounds o f names e b) := by
+  unfold readBoundsVar rdBounds
+  have hdims : (boundsVar names e (cdimsOf names (wfAx f) e) b).dims = cdimsOf names (wfAx f) e ++ [nameOf names (.bdim e.key)] := rfl
+  rw [hdims, hv]
+  have hlen : ((cdimsOf names (wfAx f) e ++ [nameOf names (Slot.bdim e.key)]).length == (cdimsOf names (wfAx f) e).length + 1
+      && List.take (cdimsOf names (wfAx f) e).length (cdimsOf names (wfAx f) e ++ [nameOf names (Slot.bdim e.key)]) == cdimsOf names (wfAx f) e) = true := by
+    simp
+  rw [if_pos hlen]
+  have hlast : (cdimsOf names (wfAx f) e ++ [nameOf names (Slot.bdim e.key)]).getLast? = some (nameOf names (Slot.bdim e.key)) := by
+    simp
+  rw [hlast]
+  have hdata : (boundsVar names e (cdimsOf names (wfAx f) e) b).data = some b.data.id := rfl
+  rw [hdata]
+  simp only
+  have hattrs : (boundsVar names e (cdimsOf names (wfAx f) e) b).attrs = b.props := by
+    unfold boundsVar
+    simp only
+    rw [List.filter_eq_self]
+    intro p hp
+    obtain ⟨_, hco, _⟩ := wf_entry hwf he
+    have := hco.2.1 b (by rw [hb]; simp) p hp
+    simp only [Bool.not_eq_true', Bool.and_eq_false_iff]
+    by_cases h1 : omitBoundsProps.contains p.1 = true
+    · right
+      by_contra h2
+      exact this ⟨h1, by simpa using h2⟩
+    · left; simpa using h1
+  have hstr : (boundsVar names e (cdimsOf names (wfAx f) e) b).isStr = b.data.isStr := rfl
+  have hname : (boundsVar names e (cdimsOf names (wfAx f) e) b).name = nameOf names (.bvar e.key) := rfl
+  rw [hattrs, hstr, hname]
 
 /-- Reading the bounds of a coordinate variable of the written file, exactly. -/
 theorem readBounds_exact {e : Entry} (he : e ∈ f.cons) (hc : isCoord e = true) :
     readBounds (wfFile o f names) (coordVar f names e (cdimsOf names (wfAx f) e)) =
-      e.con.bounds.map (fun b =>
-        { props := b.props
-          ncvar := some (nameOf names (.bvar e.key))
-          ncdim := if (cdimsOf names (wfAx f) e).contains (nameOf names (.bdim e.key)) then none
-                   else some (nameOf names (.bdim e.key))
-          data := b.data
-          nverts := (((wfFile o f names).dim? (nameOf names (.bdim e.key))).map (·.size)).getD 0 }) := by
+      e.con.bounds.map (rdBounds o f names e) := by
   unfold readBounds
   have hbn : boundsAttr (coordVar f names e (cdimsOf names (wfAx f) e))
       = e.con.bounds.map (fun _ => nameOf names (.bvar e.key)) := by
@@ -237,38 +276,9 @@ theorem readBounds_exact {e : Entry} (he : e ∈ f.cons) (hc : isCoord e = true)
   | none => rfl
   | some b =>
     simp only [Option.map_some, Option.bind_some]
-    rw [var_bvar hwf hg he hc hb]
+    rw [var_bvar hwf hg he (isBounded_of_isCoord hc) hb]
     simp only [Option.bind_some]
-    unfold readBoundsVar
-    have hdims : (boundsVar names e (cdimsOf names (wfAx f) e) b).dims = cdimsOf names (wfAx f) e ++ [nameOf names (.bdim e.key)] := rfl
-    have hcv : (coordVar f names e (cdimsOf names (wfAx f) e)).dims = cdimsOf names (wfAx f) e := rfl
-    rw [hdims, hcv]
-    have hlen : ((cdimsOf names (wfAx f) e ++ [nameOf names (Slot.bdim e.key)]).length == (cdimsOf names (wfAx f) e).length + 1
-        && List.take (cdimsOf names (wfAx f) e).length (cdimsOf names (wfAx f) e ++ [nameOf names (Slot.bdim e.key)]) == cdimsOf names (wfAx f) e) = true := by
-      simp
-    rw [if_pos hlen]
-    have hlast : (cdimsOf names (wfAx f) e ++ [nameOf names (Slot.bdim e.key)]).getLast? = some (nameOf names (Slot.bdim e.key)) := by
-      simp
-    rw [hlast]
-    have hdata : (boundsVar names e (cdimsOf names (wfAx f) e) b).data = some b.data.id := rfl
-    rw [hdata]
-    simp only
-    have hattrs : (boundsVar names e (cdimsOf names (wfAx f) e) b).attrs = b.props := by
-      unfold boundsVar
-      simp only
-      rw [List.filter_eq_self]
-      intro p hp
-      obtain ⟨_, hco, _⟩ := wf_entry hwf he
-      have := hco.2.1 b (by rw [hb]; simp) p hp
-      simp only [Bool.not_eq_true', Bool.and_eq_false_iff]
-      by_cases h1 : omitBoundsProps.contains p.1 = true
-      · right
-        by_contra h2
-        exact this ⟨h1, by simpa using h2⟩
-      · left; simpa using h1
-    have hstr : (boundsVar names e (cdimsOf names (wfAx f) e) b).isStr = b.data.isStr := rfl
-    have hname : (boundsVar names e (cdimsOf names (wfAx f) e) b).name = nameOf names (.bvar e.key) := rfl
-    rw [hattrs, hstr, hname]
+    exact readBoundsVar_exact hwf hg he hb _ rfl
 
 /-- Reading the bounds of a coordinate variable of the written file. -/
 theorem readBounds_main {e : Entry} (he : e ∈ f.cons) (hc : isCoord e = true) :
@@ -328,12 +338,14 @@ def rdCon (o : Opts) (f : MField) (names : List (Slot × String)) (e : Entry) : 
   | .msr => { ctype := .msr, props := e.con.props, ncvar := some (nameOf names (.con e.key)), data := e.con.data,
               measure := some (e.con.measure.getD "") }
   | .fan => { ctype := .fan, props := e.con.props, ncvar := some (nameOf names (.con e.key)), data := e.con.data }
+  | .dan => danCon (wfFile o f names) (nameOf names (.con e.key)) (mainVar f names (wfAx f) e)
+              (e.con.bounds.map (fun _ => nameOf names (.bvar e.key)))
 
 def rd (o : Opts) (f : MField) (names : List (Slot × String)) (e : Entry) : Entry :=
   (nameOf names (.con e.key), rdCon o f names e, e.axes.map (piOf f names))
 
 section
-variable {o : Opts} {f : MField} {names : List (Slot × String)} (hwf : WFField f) (hg : GoodNames f (wfAx f) names)
+variable {o : Opts} {f : MField} {names : List (Slot × String)} (hwf : WFFieldB f) (hg : GoodNames f (wfAx f) names)
 include hwf hg
 
 theorem rdCon_strip {e : Entry} (he : e ∈ f.cons) : (rdCon o f names e).strip = e.con.strip := by
@@ -380,6 +392,34 @@ theorem rdCon_strip {e : Entry} (he : e ∈ f.cons) : (rdCon o f names e).strip 
       | some m =>
         have := hs.2.2.2.2.2.1.mp (by rw [hm]; rfl)
         simp [ht] at this
+    · exact hs.2.2.2.2.1.symm
+  | dan =>
+    simp only
+    have hwd := hwf.2.2.2.2.2.2.1 e he ht
+    have hmv : mainVar f names (wfAx f) e = plainVar names e (cdimsOf names (wfAx f) e) := by unfold mainVar; rw [ht]
+    unfold danCon
+    apply strip_eq
+    · exact ht.symm
+    · rw [hmv]; rfl
+    · rw [hmv]; exact arr_eta e.con.data
+    · simp only
+      cases hb : e.con.bounds with
+      | none =>
+        simp only [Option.map_none]
+        rw [hmv]
+        rfl
+      | some b =>
+        simp only [Option.map_some]
+        rw [var_bvar hwf hg he (by simp [isBounded, ht]) hb]
+        simp only [Option.bind_some]
+        rw [readBoundsVar_exact hwf hg he hb _ (by rw [hmv]; rfl)]
+        rfl
+    · exact hwd.1.symm
+    · cases hm : e.con.measure with
+      | none => rfl
+      | some m =>
+        have := hs.2.2.2.2.2.1.mp (by rw [hm]; rfl)
+        rw [ht] at this; cases this
     · exact hs.2.2.2.2.1.symm
 
 theorem rd_ren {e : Entry} (he : e ∈ f.cons) :
@@ -476,7 +516,7 @@ def scalarOf (ar : Key × Role) : Option Entry :=
   | _ => none
 
 section
-variable {o : Opts} {f : MField} {names : List (Slot × String)} (hwf : WFField f) (hg : GoodNames f (wfAx f) names)
+variable {o : Opts} {f : MField} {names : List (Slot × String)} (hwf : WFFieldB f) (hg : GoodNames f (wfAx f) names)
 include hwf hg
 
 /-- Facts about the role of an axis. -/
